@@ -363,7 +363,13 @@ class LabelsReader(Thread):
                     for inst in lf:
                         if not inst.is_empty:
                             instances.append(inst.numpy())
-                    instances = np.stack(instances, axis=0)
+                    if instances:
+                        instances = np.stack(instances, axis=0)
+                    else:
+                        # frame without any non-empty instance
+                        instances = np.full(
+                            (1, len(self.labels.skeletons[0].nodes), 2), np.nan
+                        )
 
                     # Add singleton time dimension for single frames.
                     instances = np.expand_dims(
